@@ -745,7 +745,7 @@ def judge_clip_row(row, plan, chars, ref, forms, owner, first):
                     return f"column {c}: a blank stands where the double-width character {chars[k]!r} is wholly visible"
                 allowed = [ref[j] for j in cut_cluster(chars, k)]
                 if not any(same(u["attr"], a) for a in allowed):
-                    return f"column {c}: the blank left of the cut double-width character {chars[k]!r} (source index {k}) carries {u['attr']!r}, not an attribute of that character ({allowed!r})"
+                    return f"column {c}: the blank standing for the cut double-width character {chars[k]!r} (source index {k}) carries {u['attr']!r}, not an attribute of that character ({allowed!r})"
             else:
                 return f"column {c}: a blank stands where character {chars[k]!r} should be seen"
         c += 1
